@@ -224,6 +224,10 @@ func (e *Exec) eval(ctx *evalCtx, x Expr, want types.Type) Val {
 		if t == nil {
 			fail("unknown type %s", x.T)
 		}
+		if types.IsInterface(t) && !isTypeParam(t) {
+			// x is I: the dynamic type is non-nil and implements I
+			return Val{T: []string{tAnd(tNot(tEq(v.T[0], "0")), app(e.implFn(t), v.T[0]))}, Typ: types.Typ[types.Bool]}
+		}
 		return Val{T: []string{tEq(v.T[0], e.typeID(t))}, Typ: types.Typ[types.Bool]}
 	}
 	fail("cannot evaluate %s", exprString(x))
@@ -827,6 +831,9 @@ func (e *Exec) evalCall(ctx *evalCtx, x *ECall, want types.Type) Val {
 		}
 		if len(v.T) != 2 {
 			fail("as() of a non-interface value")
+		}
+		if types.IsInterface(t) && !isTypeParam(t) {
+			return Val{T: []string{v.T[0], v.T[1]}, Typ: t}
 		}
 		return e.unbox(ctx.st, v.T[1], t)
 	case "content":
